@@ -2287,7 +2287,7 @@ class Engine:
             cur = self.st.ghost.get(g, z3.IntVal(0))
             self.st.ghost[g] = cur + inc
         if cc.record_as:
-            self.st.calls.setdefault(cc.record_as, []).append(dict(env))
+            self.st.calls.setdefault(cc.record_as, []).append(dict(env, result=res))
         return res
 
     def _comp_call(self, cc, env) -> V:
